@@ -63,7 +63,7 @@ def rand_cases(rng, n):
             na = k if r < 0.7 else (k + 1 if r < 0.85 else max(0, k - 1))
             na = min(na, 5)
             out.append((dict(op="format", fmt=b(f), args=[b(rng.choice(argv)) for _ in range(na)]),
-                        rng.choice(["mod", "args"])))
+                        rng.choice(["mod", "args", "copy"])))
         else:
             shape = rng.choice(["s", "i", "ss", "si", "is", "ii", "sss", "sis", "isi", "ssi", "iss", "sii", "iis", "iii",
                                 "ssss", "sisi", "isis"])
@@ -101,6 +101,8 @@ def run(chk, replay, exe):
         if c["op"] == "format":
             dc.append((c, "mod"))
             dc.append((c, "args"))
+            if len(c["args"]) >= 2:
+                dc.append((c, "copy"))
         else:
             dc.append((c, "mod"))
     obs = vc.run_cases(exe, [to_driver(c, via) for c, via in dc], chk.out, "replay", per_case_timeout=5)
